@@ -766,4 +766,17 @@ theorem iterW_tf (st : Nat) : ∀ (rest : List (List Cell)) (fuel : Nat) (v4 : V
       · exact .inr ⟨p, by simp [iterW, tfMore, tfStep, h1], by rw [h2]⟩
 
 
+/-! ### a whole soft-wrapped RichText for the interpreter -/
+
+/-- the interpreter's parameters for a soft-wrapped RichText whose scanner yields `lines` at `Max.Width`: `cells` returns the
+cells, `findContainerSize` is the EXECUTED body of `RichText.findContainerSize` -/
+def richRo (maxW : UInt16) (lines : List (List Cell)) : Ro :=
+  let R0 : Ro := { noRo with fields := fun f => if f = "Softwrap" then some (.bool true) else none, soft := lines, wrapW := maxW }
+  { R0 with self := fun f args =>
+      if f = "meth:cells" then some (.ok (.cells lines.flatten))
+      else if f = "meth:findContainerSize" then
+        some ((run R0 Gen.SurfaceBodies.richFindContainerSize Gen.SurfaceBodies.richFindContainerSizeParams args (Screen.resize 0 0)).map (·.1))
+      else none }
+
+
 end VaxisModel.Lemmas.SurfExec
